@@ -28,7 +28,15 @@ class ProbMonitor:
         self.cache = {}
         self.patterns = set()
 
-    def after_inf_retis(self, rig, state, out, input_mat, locks):
+    def after_prob(self, rig, state, out):
+        """The matrix the program is about to use (cache included) must be
+        the P of the state and locks as they are now."""
+        rig.reach("prob_property")
+        self.after_inf_retis(rig, state, out, np.abs(state.state),
+                             state._locks, where="state.prob")
+
+    def after_inf_retis(self, rig, state, out, input_mat, locks,
+                        where="inf_retis"):
         rig.reach("inf_retis")
         w = np.array(input_mat, dtype=float)
         lk = np.asarray(locks) == 1
@@ -69,7 +77,8 @@ class ProbMonitor:
         err = float(np.max(np.abs(got - ref)))
         if err > 1e-9:
             rig.violate("P-differs-from-permanent-ratio",
-                        f"max |P - W_ij perm(W\\ij)/perm(W)| = {err:.3g}",
+                        f"{where}: max |P - W_ij perm(W\\ij)/perm(W)| = "
+                        f"{err:.3g}",
                         W=w.tolist(), locks=lk.tolist(), P=out.tolist(),
                         ref=ref.tolist())
         if np.any((sub == 0) & (got != 0)):
@@ -214,6 +223,7 @@ class FracMonitor:
         self.idle_steps = None
         self.rows_written = {}
         self.before = None
+        self._pcache = {}
 
     def on_state(self, rig, state):
         self.n = state.n
@@ -310,6 +320,33 @@ class FracMonitor:
             if np.any(delta < -1e-15):
                 rig.violate("frac-decreased", f"path {pn}", delta=delta.tolist())
             gain += delta
+        # each idle path's gain is its own row of the exact P matrix
+        idle = np.where(locks == 0)[0]
+        if 0 < len(idle) <= 8:
+            sub = np.abs(np.asarray(state.state, dtype=float))[
+                np.ix_(idle, idle)]
+            key = sub.tobytes()
+            ref = self._pcache.get(key)
+            if ref is None:
+                ref, _ = p_matrix(sub.tolist())
+                self._pcache[key] = ref if ref is not None else "none"
+            if ref is not None and ref != "none":
+                rig.reach("frac_rows_vs_P")
+                for a, i in enumerate(idle):
+                    pn = live[i] if i < len(live) else None
+                    d = state.traj_data.get(pn)
+                    if d is None:
+                        continue
+                    delta = np.array(d["frac"], dtype=np.longdouble) - \
+                        self.before.get(pn, np.zeros(n, dtype=np.longdouble))
+                    want = np.zeros(n)
+                    want[idle] = [float(x) for x in ref[a]]
+                    if np.max(np.abs(np.asarray(delta, dtype=float) - want)) \
+                            > 1e-9:
+                        rig.violate(
+                            "frac-delta-not-P-row",
+                            f"path {pn} gained {[float(x) for x in delta]} "
+                            f"but its row of P is {want.tolist()}")
         # paths that are no longer live must not have gained anything
         for pn, was in self.before.items():
             if pn not in live and pn in state.traj_data:
